@@ -340,6 +340,10 @@ impl Report {
             wall,
             self.exhaustive && self.caps.is_empty()
         );
+        let disturbed = crate::ctl::DISTURBED.load(std::sync::atomic::Ordering::SeqCst);
+        if disturbed > 0 {
+            println!("NOTE: {disturbed} execution(s) made no progress within the real-time watchdog at first and completed when the same choice vector was run again (machine disturbance; the repetition's result was used)");
+        }
         let stuck = crate::ctl::WEDGED.load(std::sync::atomic::Ordering::SeqCst);
         if stuck > 0 {
             println!("NOTE: {stuck} execution(s) got stuck in real time; after three, no further executions were started (coverage below is partial)");
